@@ -143,6 +143,148 @@ pub mod sampled_parts {
     }
 }
 
+// ---- sampled contract: the readers are total (C11) -----------------------------------------------------------------
+// any int sequence read as a snapshot / as a delta, and any accepted delta applied to any accepted snapshot, returns
+// a value or an error, never panics; what is accepted respects the limits and can be written again.
+#[cfg(not(kani))]
+pub mod sampled_total {
+    use crate::snap::Delta;
+    use crate::snap::Snap;
+    use crate::snap::MAX_SNAPSHOT_ITEMS;
+    use libtw2_packer::IntUnpacker;
+
+    pub fn contract_readers_total(snap_ints: &[i32], delta_ints: &[i32], agreed: bool) {
+        let mut w: Vec<crate::format::Warning> = Vec::new();
+        let mut a = Snap::empty();
+        let ok = a.read_from_ints(&mut w, snap_ints).is_ok();
+        if !ok {
+            a = Snap::empty();
+        }
+        assert!(a.items().count() <= MAX_SNAPSHOT_ITEMS);
+        let _ = a.crc();
+        let mut keys = Vec::new();
+        let mut out = vec![0i32; 17000];
+        let n = a.write_to_ints(&mut keys, &mut out).expect("an accepted snapshot can be written").len();
+        assert!(n * 4 <= 65536, "accepted snapshot larger than the limit");
+        let mut d = Delta::new();
+        let mut p = IntUnpacker::new(delta_ints);
+        let size = move |t: u16| if agreed && t < 8 { Some((t % 4) as u32) } else { None };
+        if d.read_from_ints(&mut w, size, &mut p).is_ok() {
+            let mut b = Snap::empty();
+            if b.read_with_delta(&mut w, &a, &d).is_ok() {
+                assert!(b.items().count() <= MAX_SNAPSHOT_ITEMS);
+                let m = b.write_to_ints(&mut keys, &mut out).expect("a patched snapshot can be written").len();
+                assert!(m * 4 <= 65536);
+            }
+        }
+    }
+}
+
+// ---- sampled contract: sender storage <-> receiving manager over a lossy channel (C13) ------------------------------
+// The sender follows the storage API exactly as server/src/main.rs does (new_builder, delta_tick, add_snap,
+// delta_chunks; set_delta_tick on every acknowledgement that arrives).  Whenever the receiver accepts a snapshot for a
+// tick it equals, item for item, the snapshot the sender built for that tick; otherwise it reports an error and its
+// acknowledged tick does not move to that tick.  Neither side panics.
+#[cfg(not(kani))]
+pub mod sampled_party {
+    use super::sampled::{view, Item};
+    use crate::snap::delta_chunks;
+    use crate::Manager;
+    use crate::Storage;
+    use libtw2_gamenet_snap::SnapMsg;
+    use libtw2_packer::with_packer;
+
+    #[derive(Clone, Debug)]
+    pub struct Step {
+        pub items: Vec<Item>,
+        /// how the parts of this tick's delta travel: indices into the parts (mod n); missing = lost, repeated = dup
+        pub deliveries: Vec<usize>,
+        /// deliver every part once, in order, before `deliveries`
+        pub clean: bool,
+        /// acknowledgement handling after this step: 0 none, 1 current ack_tick, 2 an older ack delivered late
+        pub ack: usize,
+        pub gap: i32,
+    }
+    pub fn contract_two_party(steps: &[Step], agreed: bool) {
+        let mut sender = Storage::new();
+        let mut receiver = Manager::new();
+        let mut built: Vec<(i32, Vec<Item>)> = Vec::new();
+        let mut old_acks: Vec<i32> = Vec::new();
+        let mut tick: i32 = 10;
+        let mut warnings: Vec<crate::manager::Warning> = Vec::new();
+        struct W;
+        impl libtw2_warn::Warn<crate::storage::WeirdNegativeDeltaTick> for W {
+            fn warn(&mut self, _: crate::storage::WeirdNegativeDeltaTick) {}
+        }
+        for st in steps {
+            tick += st.gap.max(1);
+            // sender builds this tick's snapshot
+            let mut b = sender.new_builder();
+            let delta_tick = sender.delta_tick().unwrap_or(-1);
+            let mut accepted: Vec<Item> = Vec::new();
+            for (t, id, data) in &st.items {
+                if b.add_item(*t, *id, data).is_ok() {
+                    accepted.push((*t, *id, data.clone()));
+                }
+            }
+            accepted.sort();
+            let snap = b.finish();
+            assert!(view(&snap) == accepted);
+            let crc = snap.crc();
+            built.push((tick, accepted));
+            let mut bytes: Vec<u8> = Vec::with_capacity(5 * 40000);
+            {
+                let delta = sender.add_snap(tick, snap);
+                with_packer(&mut bytes, |p| delta.write(super::sampled::obj_size(agreed), p).map(|_| ())).unwrap();
+            }
+            let parts: Vec<SnapMsg> = delta_chunks(tick, delta_tick, &bytes, crc).collect();
+            let mut order: Vec<usize> = Vec::new();
+            if st.clean {
+                order.extend(0..parts.len());
+            }
+            order.extend(st.deliveries.iter().map(|i| i % parts.len()));
+            for &i in &order {
+                let before = receiver.ack_tick();
+                let res = match parts[i] {
+                    SnapMsg::Snap(m) => receiver.snap(&mut warnings, super::sampled::obj_size(agreed), m).map(|o| o.map(view)),
+                    SnapMsg::SnapSingle(m) => receiver.snap_single(&mut warnings, super::sampled::obj_size(agreed), m).map(|o| o.map(view)),
+                    SnapMsg::SnapEmpty(m) => receiver.snap_empty(&mut warnings, super::sampled::obj_size(agreed), m).map(|o| o.map(view)),
+                };
+                match res {
+                    Ok(Some(got)) => {
+                        let want = &built.iter().find(|(t, _)| *t == tick).unwrap().1;
+                        assert!(&got == want, "accepted snapshot differs from the one the sender built for that tick");
+                        assert!(receiver.ack_tick() == Some(tick), "accepted but not acknowledged");
+                    }
+                    Ok(None) => assert!(receiver.ack_tick() == before, "acknowledged tick moved without an accepted snapshot"),
+                    Err(_) => {
+                        let after = receiver.ack_tick();
+                        assert!(after == before || after.is_none(), "acknowledged tick advanced on an error");
+                    }
+                }
+            }
+            match st.ack {
+                1 => {
+                    if let Some(a) = receiver.ack_tick() {
+                        old_acks.push(a);
+                        let _ = sender.set_delta_tick(&mut W, a);
+                    } else {
+                        let _ = sender.set_delta_tick(&mut W, -1);
+                    }
+                }
+                2 => {
+                    if !old_acks.is_empty() {
+                        // an acknowledgement that was delayed: may refer to a snapshot the sender already dropped
+                        let a = old_acks[0];
+                        let _ = sender.set_delta_tick(&mut W, a);
+                    }
+                }
+                _ => {}
+            }
+        }
+    }
+}
+
 pub mod proofs {
     use super::draw;
     use super::draw::harness;
@@ -231,6 +373,84 @@ pub mod proofs {
         }
         draw::reached();
         contract_parts_transfer(&transfers);
+    });
+
+    #[cfg(not(kani))]
+    harness!(sampled_snap_readers_total, unwind = 1, {
+        // a snapshot in wire form with plausible header / offsets / keys, then disturbed; a delta likewise
+        let n_items = draw::usize_le(4);
+        let mut items: Vec<Vec<i32>> = Vec::new();
+        for _ in 0..n_items {
+            let mut it = vec![((draw::usize_le(9) as i32) << 16) | draw::usize_le(3) as i32];
+            for _ in 0..draw::usize_le(3) {
+                it.push(draw::i32());
+            }
+            items.push(it);
+        }
+        let mut body: Vec<i32> = Vec::new();
+        let mut offsets: Vec<i32> = Vec::new();
+        for it in &items {
+            offsets.push(body.len() as i32 * 4);
+            body.extend_from_slice(it);
+        }
+        let mut snap_ints = vec![body.len() as i32 * 4, n_items as i32];
+        snap_ints.extend_from_slice(&offsets);
+        snap_ints.extend_from_slice(&body);
+        for _ in 0..draw::usize_le(2) {
+            if !snap_ints.is_empty() {
+                let i = draw::usize_le(snap_ints.len() - 1);
+                snap_ints[i] = draw::i32();
+            }
+        }
+        if draw::usize_le(5) == 0 {
+            let cut = draw::usize_le(snap_ints.len());
+            snap_ints.truncate(cut);
+        }
+        // delta: num_deleted, num_updated, 0, deleted keys, (type, id, [size], data)*
+        let nd = draw::usize_le(2);
+        let nu = draw::usize_le(3);
+        let mut delta = vec![nd as i32, nu as i32, 0];
+        for _ in 0..nd {
+            delta.push(((draw::usize_le(9) as i32) << 16) | draw::usize_le(3) as i32);
+        }
+        for _ in 0..nu {
+            delta.push(draw::usize_le(9) as i32);
+            delta.push(draw::usize_le(3) as i32);
+            let sz = draw::usize_le(3);
+            if draw::usize_le(3) != 0 {
+                delta.push(sz as i32);
+            }
+            for _ in 0..sz {
+                delta.push(draw::i32());
+            }
+        }
+        for _ in 0..draw::usize_le(2) {
+            let i = draw::usize_le(delta.len() - 1);
+            delta[i] = draw::i32();
+        }
+        let agreed = draw::bool();
+        draw::reached();
+        super::sampled_total::contract_readers_total(&snap_ints, &delta, agreed);
+    });
+
+    #[cfg(not(kani))]
+    harness!(sampled_snap_two_party, unwind = 1, {
+        use super::sampled_party::*;
+        let mut steps = Vec::new();
+        for _ in 0..draw::usize_le(8) {
+            let mut items = super::sampled_proofs_support::draw_items(5);
+            // now and then a snapshot big enough for a multi-part delta
+            if draw::usize_le(5) == 0 {
+                for k in 0..(1 + draw::usize_le(2)) {
+                    items.push((crate::format::TypeId::Ordinal(100), 500 + k as u16, vec![draw::i32(); 250 + 100 * k]));
+                }
+            }
+            let deliveries: Vec<usize> = (0..draw::usize_le(4)).map(|_| draw::usize_le(5)).collect();
+            steps.push(Step { items, deliveries, clean: draw::usize_le(3) != 0, ack: draw::usize_le(3), gap: 1 + draw::usize_le(3) as i32 });
+        }
+        let agreed = draw::bool();
+        draw::reached();
+        contract_two_party(&steps, agreed);
     });
 
 }
